@@ -314,7 +314,8 @@ def rule_fields(ctx: Ctx) -> None:
 
 def rule_errors(ctx: Ctx) -> None:
     fi = ctx.func(AB + "calculate_error")
-    paths = [p for p in enum_paths(ctx, fi) if p.exit == ("return",)]
+    # `err` is read as a chain of assignments whether or not the yaw wrap writes into it in place
+    paths = [p for p in enum_paths(ctx, fi, stateful_extra=frozenset({"err"})) if p.exit == ("return",)]
     lps = loops_of(paths)
     ctx.require(len(lps) >= 1, "calculate_error: column loop not found")
     lp = lps[0]
@@ -332,12 +333,13 @@ def rule_errors(ctx: Ctx) -> None:
         seen.add(kind)
         m = re.match(r"^(.*)-(.*)$", first)
         ok = False
+        # (when nothing writes into err in place, err is a pure value and `first` is the whole expression that ends up in the column: the difference is then a sub-expression of it)
         if kind in ("plain", "yaw"):
-            ok = re.match(rf"^np\.array\((.*?)\[0\]\[{col}\]\)-np\.array\((.*?)\[1\]\[{col}\]\)$", first) is not None and first.count("self.get_pair_results(") == 2
+            ok = re.search(rf"np\.array\(self\.get_pair_results\([^()]*(?:\([^()]*\))*[^()]*\)\[0\]\[{col}\]\)-np\.array\(self\.get_pair_results\([^()]*(?:\([^()]*\))*[^()]*\)\[1\]\[{col}\]\)", first) is not None and first.count("[0][") == first.count("[1][")
         elif kind == "distance":
-            ok = first.startswith("np.array(") and "[0][['x','y']])-np.array(" in first and first.endswith("[1][['x','y']])")
+            ok = "np.array(" in first and "[0][['x','y']])-np.array(" in first and "[1][['x','y']])" in first and first.index("[0][['x','y']]") < first.index("[1][['x','y']]")
         else:
-            ok = first.startswith("np.stack((") and "[0]['nn_point1']" in first and "[1]['nn_point1']" in first and first.index("[0]['nn_point1']") < first.index("[1]['nn_point1']")
+            ok = "np.stack((" in first and "[0]['nn_point1']" in first and "[1]['nn_point1']" in first and first.index("[0]['nn_point1']") < first.index("[1]['nn_point1']")
         ctx.check(ok, "C19-errors", "calculate_error", f"gt-minus-est:{kind}",
                   f"the {kind} error is `{first.replace(PAIR, 'PAIR')[:160]}`; reported errors are ground truth minus estimation over the paired rows", fi=fi,
                   expected="gt_arr - est_arr", found=first.replace(PAIR, "PAIR")[:200], sample={"column": kind, "err": "gt - est"})
@@ -360,6 +362,18 @@ def rule_errors(ctx: Ctx) -> None:
                 except (Unrecognised, SyntaxError):
                     sh = f"other({val[:40]})"
                 got.add((recv, sh))
+            if not st:
+                # no in-place shift: the wrap is a re-assignment of err
+                t = " ; ".join(strip_v(S(e.value)) for e in bp.effects if e.kind == "assign" and e.recv == "err" and "np.pi" in S(e.value))
+                if "fmod(" in t:
+                    ctx.violate("R-ANGLEWRAP", "calculate_error", "yaw-wrap",
+                                "the yaw error is wrapped with fmod, which keeps the sign of the dividend: a difference below -pi stays below -pi (only the positive side is wrapped)", fi=fi,
+                                expected="shift by -2*pi above pi and by +2*pi below -pi", found=t.replace(PAIR, "PAIR")[:160])
+                    continue
+                modular = re.fullmatch(r"\(err\+np\.pi\)%\(2\*np\.pi\)-np\.pi|np\.(?:mod|remainder)\(err\+np\.pi,2\*np\.pi\)-np\.pi", t) is not None
+                ctx.require(modular, f"calculate_error: the yaw wrap `{t.replace(PAIR, 'PAIR')[:120]}` is neither the two in-place shifts nor (err + pi) % (2*pi) - pi")
+                ctx.ok("R-ANGLEWRAP", "calculate_error", "yaw-wrap")
+                continue
             ctx.check(got == want, "R-ANGLEWRAP", "calculate_error", "yaw-wrap",
                       f"the yaw error is wrapped by {sorted(got)}; it must be shifted by -2*pi above pi and by +2*pi below -pi (whole turns only)", fi=fi, expected=str(sorted(want)), found=str(sorted(got)))
     ctx.require({"plain", "yaw", "distance", "nn_plane"} <= seen, f"calculate_error: column kinds {sorted(seen)}")
@@ -370,6 +384,8 @@ def rule_errors(ctx: Ctx) -> None:
         kind = "distance" if f.get(f"eq:{col}=='distance'") else "nn_plane" if f.get(f"eq:{col}=='nn_plane'") else "yaw" if f.get(f"eq:{col}=='yaw'") else "plain"
         rn = f.get("truthy:remove_nan")
         chain = [strip_v(S(e.value)) for e in bp.effects if e.kind == "assign" and e.recv == "err"][1:]
+        if kind == "yaw":
+            chain = [c for c in chain if "np.pi" not in c]  # the wrap written as a re-assignment is judged by R-ANGLEWRAP above
         want = (["err[~np.isnan(err)]"] if rn else []) + POST[kind]
         ctx.check(rn is not None and chain == want, "C19-errors", "calculate_error", f"post:{kind}:remove_nan={rn}",
                   f"after the difference the {kind} error goes through {chain}; expected {want} (NaN rows removed iff asked; distance = norm of the (x, y) difference, nn_plane = mean of the two corner distances)",
